@@ -31,12 +31,11 @@ Prog_pooldet == [main |-> <<O("new", 0), O("sched", 1), O("detach", 1), O("del",
 Prog_poolcan == [main |-> <<O("new", 0), O("sched", 1), O("tick", 0), O("cancel", 1), O("tick", 0), O("calls", 1),
                              O("del", 1), O("stop", 0), O("delpool", 0)>>]
 
-\* ---- two tasks, two drivers and a clock thread
+\* ---- two tasks (pool + ImmediateInvoker) on two driver threads
 Cfg_two     == [k \in {1, 2} |-> IF k = 1 THEN C(1, 1, 2, TRUE, FALSE, 0) ELSE C(0, 2, 2, FALSE, TRUE, 2)]
-Prog_two    == [main |-> <<O("new", 0), O("sched", 1), O("cancel", 1), O("del", 1), O("sync", 0), O("stop", 0),
+Prog_two    == [main |-> <<O("new", 0), O("sched", 1), O("tick", 0), O("cancel", 1), O("del", 1), O("sync", 0), O("stop", 0),
                             O("delpool", 0)>>,
-                p2   |-> <<O("up", 0), O("sched", 2), O("del", 2)>>,
-                clk  |-> <<O("tick", 0), O("tick", 0)>>]
+                p2   |-> <<O("up", 0), O("sched", 2), O("del", 2)>>]
 
 \* ---- quick tier: three small configurations as three initial states of one TLC run
 InitQuick ==
